@@ -80,13 +80,13 @@ class C24(Property):
         return all(r["quoted"] for r in self.by_op.get(op, []))
 
     # ---- one sequence ------------------------------------------------------------------------------------------------
-    def run_sequence(self, ctx: Ctx, tame: bool, seq_seed: int, ops: list | None = None, nops: int = 10) -> None:
+    def run_sequence(self, ctx: Ctx, tame: bool, seq_seed: int, ops: list | None = None, nops: int = 10, links: bool = False) -> None:
         import random
         rng = random.Random(seq_seed)
         self.nseq += 1
         base = os.path.join(ctx.scratch, f"s{self.gen}_{self.nseq}")
         lroot, rroot = os.path.join(base, "local"), os.path.join(base, "remote")
-        make_tree(rng, lroot, max_entries=rng.choice([3, 8, 15]), nasty=0.0 if tame else 0.6, symlinks=not tame)
+        make_tree(rng, lroot, max_entries=rng.choice([3, 8, 15]), nasty=0.0 if tame else 0.6, symlinks=(not tame) or links)
         subprocess.run(["cp", "-a", lroot, rroot], check=True, timeout=60)
         entries = [k for k in snapshot(lroot) if k]
         context = make_context(base)
@@ -214,6 +214,8 @@ class C24(Property):
             self.judge(ctx, tame, seq_seed, plan, op, lres, rres, cmds, lsnap, rsnap, rroot)
             if tame and op["op"] == "mkdir" and rres != ["hang"]:
                 self.fs_model_case(op, lres, rres, lsnap, rsnap, pre)
+            if tame and op["op"] in ("symlink_to", "hardlink_to", "size", "chmod") and rres != ["hang"]:
+                self.fsl_model_case(op, lres, rres, lsnap, rsnap, pre, lroot)
         shutil.rmtree(base, ignore_errors=True)
 
     def plan(self, rng, entries: list[str], tame: bool, nops: int) -> list[dict]:
@@ -362,6 +364,75 @@ class C24(Property):
             return "ok " + "".join("1" if snap.get("/".join(comps[: i + 1]), ("",))[0] == "d" else "0" for i in range(len(comps)))
         self.fs_expect.append((f"L {bits(lres, lsnap)} R {bits(rres, rsnap)}", {"op": op, "dirs": dirs[:10], "files": files[:10]}))
 
+    def fsl_model_case(self, op, lres, rres, lsnap, rsnap, pre, lroot) -> None:
+        """symlink_to / hardlink_to / size / chmod on the Lean model with links (SFV/Model/FSL.lean) vs the real local API and remote command"""
+        name, rel, a = op["op"], op["path"], op.get("args", {})
+        if not rel and name != "size":
+            return
+        entries = []
+        for k, v in pre.items():
+            if not k:
+                continue
+            if v[0] == "d":
+                entries.append(f"d:{hx(k)}")
+            elif v[0] == "f":
+                mode = os.lstat(os.path.join(lroot, k)).st_mode & 0o777 if False else None
+                entries.append(("f", k, v[2]))
+            elif v[0] == "l":
+                t = os.path.normpath(os.path.join(os.path.dirname(k), v[1]))
+                if t.startswith("..") or os.path.isabs(v[1]):
+                    return  # a link leaving the tree: outside the model
+                entries.append(f"l:{hx(k)}:{hx(t) if t != '.' else '-'}")
+        # file modes are not part of the snapshots: chmod is compared on the mode it sets, the others do not depend on modes
+        entries = [e if isinstance(e, str) else f"f:{hx(e[1])}:{e[2]}:420" for e in entries]
+        comps = rel
+        if name in ("symlink_to", "hardlink_to"):
+            target = str(a.get("target", ""))
+            if target.startswith("-") or not target:
+                return  # `ln` would read it as an option: a separate known finding, outside the model
+            if name == "symlink_to":
+                tpath = os.path.normpath(os.path.join(os.path.dirname(rel), target))
+                if tpath.startswith(".."):
+                    return
+            else:
+                tpath = target
+            base = os.path.basename(target)
+            line = f"fsl {'symlink' if name == 'symlink_to' else 'hardlink'} {hx(comps)} {hx(tpath)} - E " + " ".join(entries)
+
+            def kinds(res, snap):
+                if res == ["error"]:
+                    return "error"
+
+                def k(pth):
+                    v = snap.get(pth)
+                    return "-" if v is None else ("f420" if v[0] == "f" else v[0])
+                return f"ok {k(rel)} {k(os.path.join(rel, base))}"
+            expect = f"L {kinds(lres, lsnap)} R {kinds(rres, rsnap)}"
+        elif name == "size":
+            if not isinstance(lres, int) or not isinstance(rres, int):
+                return
+            line = f"fsl size {hx(comps) if comps else '-'} - - E " + " ".join(entries)
+            expect = f"L {lres} R {rres}"
+        else:  # chmod
+            mode = a.get("mode", 0o644)
+            follow = a.get("follow", True)
+
+            def cm(res):
+                if res == ["error"]:
+                    return "error"
+                ent = pre.get(rel)
+                # the model reports the kind (and new mode) of the node the operation ends on
+                if ent and ent[0] == "d":
+                    return "ok d"
+                return f"ok f{mode}"
+            ent = pre.get(rel)
+            if ent is None or ent[0] == "l":
+                return  # through links the harness cannot see which node changed: left to the differential comparison
+            line = f"fsl chmod {hx(comps)} {hx(str(mode))} {int(bool(follow))} E " + " ".join(entries)
+            expect = f"L {cm(lres)} R {cm(rres)}"
+        self.fs_lines.append(line)
+        self.fs_expect.append((expect, {"op": op, "entries": len(entries)}))
+
     def check_templates(self, ctx, name, full, a, cmds, rroot) -> None:
         variants = self.by_op.get(name if name != "is_executable" else name, [])
         if not variants or not cmds:
@@ -410,6 +481,23 @@ class C24(Property):
                      "args": {"mode": 0o755, "parents": g.random() < 0.5, "exist_ok": g.random() < 0.5}} for _ in range(10)]
             plan.insert(3, {"op": "write_text", "path": "b", "args": {"data": "x"}})
             self.run_sequence(ctx, tame=True, seq_seed=r2, ops=plan)
+        # link-focused sequences on tame names (ties the Lean model with links: symlink_to / hardlink_to / size / chmod)
+        for _ in range(6 if big else 2):
+            r3 = rng.randrange(1 << 30)
+            import random as _random
+            g = _random.Random(r3)
+            names = ["a", "b", "c1", "sub", "sub/x", "sub/y"]
+            plan = [{"op": "mkdir", "path": "sub", "args": {"mode": 0o755, "parents": False, "exist_ok": True}},
+                    {"op": "write_text", "path": "a", "args": {"data": "hello"}}, {"op": "write_text", "path": "sub/x", "args": {"data": "xy"}}]
+            for _i in range(9):
+                k = g.choice(["symlink_to", "hardlink_to", "size", "chmod", "symlink_to", "size"])
+                if k == "size":
+                    plan.append({"op": "size", "path": g.choice(["", "sub", "a", "b"]), "args": {}})
+                elif k == "chmod":
+                    plan.append({"op": "chmod", "path": g.choice(names), "args": {"mode": g.choice([0o600, 0o755, 0o644]), "follow": g.random() < 0.8}})
+                else:
+                    plan.append({"op": k, "path": g.choice(names), "args": {"target": g.choice(["a", "sub/x", "sub", "b"])}})
+            self.run_sequence(ctx, tame=True, seq_seed=r3, ops=plan, links=True)
         # walk: one guaranteed case on a directory with a sub-directory (never terminates today: known finding) and one on a flat directory
         self.run_sequence(ctx, tame=True, seq_seed=rng.randrange(1 << 30), ops=[
             {"op": "mkdir", "path": "wflat", "args": {"mode": 0o755, "parents": False, "exist_ok": False}},
@@ -430,9 +518,10 @@ class C24(Property):
                              f"{[unhx(o) if o != 'bad-op' else o for o in outs]}", sample)
         if self.fs_lines:
             for g, (e, sample) in zip(fs_got, self.fs_expect):
-                ctx.count("fs-model:mkdir")
+                opn = sample["op"]["op"]
+                ctx.count(f"fs-model:{opn}")
                 if g != e:
-                    ctx.disagree("FS model of mkdir (local API / remote command)", f"real {e!r}, Lean model {g!r}", sample)
+                    ctx.disagree(f"FS model of {opn} (local API / remote command)", f"real {e!r}, Lean model {g!r}", sample)
         ctx.extra["templates"] = {r["lean"]: ("quoted" if r["quoted"] else "NOT-quoted") for r in self.table if r["via"] != "env"}
 
     @in_scratch_cwd
